@@ -28,6 +28,7 @@ def seedStep (σ : Sem V) (inp : ℕ → List V) (vs : List (List V)) (x : Op ×
   | .cat ss => (ss.map (gv vs)).flatten
   | .flat s m => ((gv vs s).map fun v => (List.range m).map fun p => σ.sp n p v).flatten
   | .reuse s o _ c _ => (idxFrom 0 c).map fun co => σ.post o co (σ.b o co + mix (σ.L o co) 0 (gv vs s))
+  | .reuseDw s o _ _ => List.zipWith (fun c v => σ.post o c (σ.b o c + σ.D o c v)) (idxFrom 0 (gv vs s).length) (gv vs s)
   | .output s => gv vs s
 
 /-- widths the masks must have at the features-defining layers -/
@@ -61,6 +62,11 @@ theorem pit_step_eq_seed (σ : Sem V) (ms : List (List Bool)) (inp : ℕ → Lis
     rw [hall, hw, maskedLayer_all_true]
   | dw s a =>
     obtain ⟨hs, hm⟩ := hok
+    obtain ⟨hlen, -, -⟩ := hinvn s hs
+    simp only [pitStep, seedStep]
+    rw [hall, hm, hlen, maskedDw_all_true]
+  | reuseDw s o ls a =>
+    obtain ⟨hs, hm, -⟩ := hok
     obtain ⟨hlen, -, -⟩ := hinvn s hs
     simp only [pitStep, seedStep]
     rw [hall, hm, hlen, maskedDw_all_true]
@@ -195,6 +201,7 @@ theorem aliveMasks_open (p : Prog) (l : List ℕ) (α : ℕ → List Rat) (hws :
       | cons s ss => exact down s (by rw [hop]; simp [Op.inputs])
     | flat s m => simp only [maskStep]; exact allTrue_expand _ _ (down s (by rw [hop]; simp [Op.inputs]))
     | reuse s o ls c a => simp only [maskStep]; exact ownMask_open p l α hα n
+    | reuseDw s o ls a => simp only [maskStep]; exact ownMask_open p l α hα n
     | output s => simp only [maskStep]; exact down s (by rw [hop]; simp [Op.inputs])
 
 /-- the widths the seed network's layers have are the widths of their masks -/
